@@ -26,7 +26,6 @@ import (
 
 	"github.com/rs/zerolog"
 
-	"verif/harness/internal/detclock"
 	"verif/harness/internal/proto"
 )
 
@@ -174,7 +173,7 @@ func call(plugin *remedies.StrategyBasedThrottlingPlugin, r *sharedConfig.Remedy
 
 func exec(c proto.Case, o *proto.Out) []string {
 	outs := make([]string, len(c.Ops))
-	clk := detclock.NewManual(0)
+	clk := &tickClock{}
 	rls := limit.NewRateLimitState(clk, logging.ContextLogger{})
 	// plugin wiring: the identity obfuscator as in services.go (production) unless the FIRST op of the
 	// case says `wiring hasher=md5` (the wiring of the repo's unit tests)
@@ -233,7 +232,14 @@ func exec(c proto.Case, o *proto.Out) []string {
 				if kvI(w, "t") < 0 {
 					panic("harness: negative instant")
 				}
-				clk.SetNow(kvI(w, "t"))
+				tick := int64(0)
+				if _, ok := proto.KV(w, "tick"); ok {
+					// the clock advances by `tick` ns on every reading made during this call
+					if tick = kvI(w, "tick"); tick < 0 || w[0] == "burst" {
+						panic("harness: bad tick")
+					}
+				}
+				clk.Set(kvI(w, "t"), tick)
 				return ""
 			}) != "" {
 				outs[i] = "bad-op"
@@ -329,14 +335,18 @@ func exec(c proto.Case, o *proto.Out) []string {
 				continue
 			}
 			outs[i] = guarded(func() string { return call(plugin, r, hs) })
+			if _, ok := proto.KV(w, "tick"); ok {
+				// how many times the call read the clock is part of the answer
+				outs[i] += fmt.Sprintf(" reads=%d", clk.Reads())
+			}
 			o.Count("answer-" + strings.Fields(outs[i])[0])
-			if outs[i] == "noop" {
+			if strings.HasPrefix(outs[i], "noop") {
 				passed = true
 			} else if strings.HasPrefix(outs[i], "early") {
 				blocked = true
 			}
 		case "counters":
-			if guarded(func() string { clk.SetNow(kvI(w, "t")); return "" }) != "" {
+			if guarded(func() string { clk.Set(kvI(w, "t"), 0); return "" }) != "" {
 				outs[i] = "bad-op"
 				continue
 			}
